@@ -211,6 +211,11 @@ def run(tier, seed):
             log("HARNESS-ERROR " + str(h)[-1500:])
         return finish(tier, seed, all_jobs, all_results, t0, n_directed, [], 2, None)
 
+    sc = [x for r in all_results for x in (r.get("selfcheck") or [])]
+    if sc:
+        log(f"HARNESS-ERROR oracle self-check failed ({len(sc)}): {sc[0][:1200]}")
+        return finish(tier, seed, all_jobs, all_results, t0, n_directed, [], 2, None)
+
     # 3. determinism tripwire (fresh, non-forked interpreters)
     trip = driver.tripwire(all_jobs, all_results, seed)
     if trip["mismatches"]:
